@@ -79,6 +79,9 @@ func genC18(ref core.CaseRef, r *rand.Rand) *c18Batch {
 		// window queries: a block timeout far beyond Stop's grace period behind a slow or blocked sink (the
 		// 2-slot window output fills up): Stop must not wait for that timeout anywhere
 		b.BlockMs = 300000
+		if (ref.Index/(3*len(c18Queries)))%2 == 1 {
+			b.BlockMs = 0 // ... or no timeout at all: producers parked in Emit are released by Stop
+		}
 		b.Sink = pick(r, []string{"slow", "blocking"})
 	}
 	if ref.Index%11 == 7 || q.Name == "direct_vpanic" || (ref.Index%5 == 1 && (q.Name == "counting" || q.Name == "global" || q.Name == "direct")) {
